@@ -150,36 +150,7 @@ fn main() {
 	for h in 1..=n_trunk as u64 {
 		// spend the oldest mature coinbase / plain output in most blocks
 		let mut specs = vec![];
-		if long && (8..=16).contains(&h) {
-			// nine fat blocks: one output split into 128, so that the output MMR (and the bitmap of
-			// unspent outputs rebuilt at every restart) spans more than one 1024-leaf chunk
-			if let Some(pos) = spendable.iter().position(|(o, c)| (!kit.outs[*o].coinbase || h >= *c + 3) && kit.outs[*o].value > 100_000) {
-				let (o, _) = spendable.remove(pos);
-				let v = kit.outs[o].value;
-				let part = (v - 1) / 128;
-				let mut outputs = vec![(part, None); 127];
-				outputs.push((v - 1 - part * 127, None));
-				specs.push(TxSpec { inputs: vec![o], outputs, kernel: KSpec::Plain(1) });
-			}
-		} else if long && h == 20 {
-			// ... and one block spending a hundred of them at once (more than the last chunk holds)
-			let mut ins = vec![];
-			let mut total = 0u64;
-			let mut k = 0;
-			while k < spendable.len() && ins.len() < 100 {
-				let (o, _) = spendable[k];
-				if !kit.outs[o].coinbase && kit.outs[o].value < 1_000_000_000 {
-					total += kit.outs[o].value;
-					ins.push(o);
-					spendable.remove(k);
-				} else {
-					k += 1;
-				}
-			}
-			if ins.len() >= 2 {
-				specs.push(TxSpec { inputs: ins, outputs: vec![(total - 1, None)], kernel: KSpec::Plain(1) });
-			}
-		} else if h >= 4 && (h % 3 != 0 || h + 3 >= n_trunk as u64) {
+		if h >= 4 && (h % 3 != 0 || h + 3 >= n_trunk as u64) {
 			if let Some(pos) = spendable.iter().position(|(o, c)| !kit.outs[*o].coinbase || h >= *c + 3) {
 				let (o, _) = spendable.remove(pos);
 				let v = kit.outs[o].value;
